@@ -109,11 +109,20 @@ func (d *D) Base(idx int, ctx *core.Ctx) *core.Scenario {
 func (d *D) streamBase(idx int, ctx *core.Ctx) *core.Scenario {
 	r := core.ItemRNG(ctx.Seed, "C02-stream", idx)
 	sc := &core.Scenario{Property: "C02", Seed: ctx.Seed, Index: idx, Level: "cli-stream", Kind: "stream", ReplayExact: true}
-	if r.Chance(0.7) {
+	switch k := r.Intn(10); {
+	case k < 5:
 		sc.Program = readers[r.Intn(len(readers))]
-	} else {
+	case k < 7:
 		o := gen.Opts{Stmts: r.Range(2, 6), MaxDepth: 2, Funcs: r.Intn(2), Reads: true, Panics: r.Chance(0.3), Specials: r.Chance(0.3)}
 		sc.Program = work.Generated(r, o, "C02", ctx.Seed, idx).Program
+	default:
+		// drawing programs: the command runs with --svg-out, so the real SVG platform is in the path
+		o := gen.Opts{Stmts: r.Range(3, 12), MaxDepth: 2, Funcs: r.Intn(2), Graphics: true, Specials: r.Chance(0.4), FontBad: r.Chance(0.2), Panics: r.Chance(0.2)}
+		sc.Program = work.Generated(r, o, "C02", ctx.Seed, idx).Program
+		sc.Argv = []string{"--svg-out", "-"}
+		if r.Chance(0.3) {
+			sc.Argv = append(sc.Argv, "--svg-style", "border: 1px solid red", "--svg-width", "400", "--svg-height", "300")
+		}
 	}
 	// the input: a few lines, then cut after any byte
 	lines := work.Inputs(r, r.Intn(5))
@@ -260,7 +269,8 @@ func (d *D) runStream(sc *core.Scenario) *streamOut {
 				}
 			}
 		}()
-		out.status = evymain.SimMain([]string{"run", "--skip-sleep", "--rand-seed", "1", path}, &kout, &kerr)
+		args := append([]string{"run", "--skip-sleep", "--rand-seed", "1"}, sc.Argv...)
+		out.status = evymain.SimMain(append(args, path), &kout, &kerr)
 	}()
 	out.stdout = simos.StdoutB.String()
 	out.stderr = kerr.String() + simos.StderrB.String()
@@ -350,6 +360,9 @@ func (d *D) check(sc *core.Scenario, ctx *core.Ctx) *core.Violation {
 			ctx.Inc(fmt.Sprintf("stream_status:%d", o.status), 1)
 			if sc.StdoutFault != "" {
 				ctx.Inc("fired:stdout-"+sc.StdoutFault, 1)
+			}
+			if len(sc.Argv) > 0 {
+				ctx.Inc("stream_runs_with_svg_platform", 1)
 			}
 			if !strings.HasSuffix(sc.Stdin, "\n") && sc.Stdin != "" {
 				ctx.Inc("fired:eof-in-the-middle-of-a-line", 1)
